@@ -27,7 +27,7 @@ Theorem patch_total_refuted :
     wf_heap h = true /\
     exists s, livepatch_module modname (scratch_dict h m_new) (fun _ _ => true) nm (S (length h)) h m_old m_new = Raised s.
 Proof.
-  exists total_cex, 1%N, 2%N, 9%N, (mkNames 90 91 92 93)%N. split; [vm_compute; reflexivity|].
+  exists total_cex, 1%N, 2%N, 9%N, (mkNames 90 91 92 93 3)%N. split; [vm_compute; reflexivity|].
   eexists. vm_compute. reflexivity.
 Qed.
 
